@@ -1,4 +1,5 @@
 import VlsModel.Gen.FnHandlerAcc
+import VlsModel.Gen.FnNodeForget
 /-
 C10 — companion module: functions of `vls-protocol-signer/src/handler.rs` translated from the Rust source on every run
 (`translate/rs2lean.py`, target list `translate/fn_targets/Handler.b1012.json`; methods named like a field of their struct
@@ -48,5 +49,40 @@ theorem C10_fn_handler_builder {Approve : Type} (b : HandlerBuilder Approve) (al
 
 /-- non-vacuity: a handler that negotiated version 4 becomes a root handler at version 4 -/
 example : (InitHandler.into (Node := Nat) (Approve := Unit) ⟨0, 7, (), 6, some 4⟩) = .ok ⟨0, 7, (), 4⟩ := rfl
+
+/-! ### Round 10 (builder b5): the refusal of `Node::forget_channel` (translated: `Gen.FnNodeForget`, tied for C11 by
+    `C11Fn.C11_fn_forget_channel`) -/
+section Forget
+open VlsModel.Gen.FnNodeForget
+
+/-- **C10_fn_forget_channel_refused**: the only refusal of `Node::forget_channel` — the ready channel's `forget()` returning an
+    error — happens before any store write: the result is that error whatever the persister would have answered (a persister
+    call evaluated before it could only turn the result into a panic), i.e. no `update_node` / `delete_channel` /
+    `update_tracker` is reached.  And an id the channel map does not hold is `Ok` without any write. -/
+theorem C10_fn_forget_channel_refused {ChannelId PublicKey ChainTracker Persist : Type} [DecidableEq ChannelId]
+    (chs : Node ChannelId PublicKey ChainTracker Persist → List (ChannelId × ChannelSlot))
+    (fg : Channel → Rs.M Unit) (st : Node ChannelId PublicKey ChainTracker Persist → NodeState)
+    (oid : ChannelId → Nat) (updn : Persist → PublicKey → NodeState → Option Unit)
+    (del : Persist → PublicKey → ChannelId → Option Unit) (updt : Persist → PublicKey → ChainTracker → Option Unit)
+    (self : Node ChannelId PublicKey ChainTracker Persist) (id : ChannelId) :
+    (∀ ch f, Rs.omapGet (chs self) id = some (.Ready ch) → fg ch = .error f →
+      Node.forget_channel chs fg st oid updn del updt self id = .error f) ∧
+    (Rs.omapGet (chs self) id = none → Node.forget_channel chs fg st oid updn del updt self id = .ok ()) := by
+  constructor
+  · intro ch f hg hf
+    unfold Node.forget_channel
+    simp only [hg, hf, bind, Except.bind]
+  · intro hg
+    unfold Node.forget_channel
+    simp [hg, bind, Except.bind, pure, Except.pure]
+
+/-- non-vacuity: a ready channel whose monitor refuses the forget, over a persister that fails every write -/
+example :
+    let node : Node Nat Nat Nat Nat := { channels := [(2, .Ready ⟨⟩)], persister := 0, tracker := 4, state := ⟨3⟩, node_id := 9 }
+    Node.forget_channel (fun n => n.channels) (fun _ => Rs.fail "policy") (fun n => n.state) id (fun _ _ _ => none)
+        (fun _ _ _ => none) (fun _ _ _ => none) node 2 = Rs.fail "policy" := by
+  intro node; rfl
+
+end Forget
 
 end VlsModel.Props.C10Fn
